@@ -109,6 +109,15 @@ def prepare(need_go=('unit',), quiet=False):
     os.makedirs(WORK, exist_ok=True)
     with Lock('build'):
         t0 = time.time()
+        # the harness module replaces the library by the tree under test (VERIF_REPO, default /repo)
+        try:
+            gm = os.path.join(HARNESS, 'go.mod')
+            txt = open(gm).read()
+            new = re.sub(r'(replace github.com/jhump/grpctunnel => )\S+', lambda m: m.group(1) + REPO, txt)
+            if new != txt:
+                open(gm, 'w').write(new)
+        except OSError:
+            pass
         # harness go.sum follows the repo's
         try:
             with open(os.path.join(REPO, 'go.sum')) as f:
